@@ -259,7 +259,9 @@ Theorem closure_exact vcmp vmatch fw cfg rc flavors dl rank vro top li D fuel st
      find_setup_product (fw_products fw) (s_env st') k = find_setup_product (fw_products fw) (s_env st) k).
 Proof.
   intros H Hd Hw Ht Hk [C0 CL] Hnd Hfresh E.
-  exact (closure_lemma vcmp vmatch fw cfg rc flavors dl rank vro top D H Hd Hw Ht Hk CL fuel st li st' al' tr Hnd Hfresh C0 E).
+  destruct (closure_lemma vcmp vmatch fw cfg rc flavors dl rank vro top D (fun _ => False) H Hd Hw Ht Hk CL fuel st li st' al' tr
+              Hnd Hfresh C0 (fun k v (Zk : False) => match Zk with end) E) as [A [B [C _]]].
+  split; [exact A|split; [exact B|exact C]].
 Qed.
 Print Assumptions closure_exact.
 
